@@ -1190,7 +1190,8 @@ class CSSSerializer:
         If "all" is in the list, every other media *except* "handheld" will
         be stripped. This is because how Opera handles CSS for PDAs.
         """
-        if len(medialist) == 0:
+        if medialist.length == 0:
+            # no media (comments are no media)
             return 'all'
         else:
             seq = medialist.seq
